@@ -6,7 +6,7 @@ from .. import env, attach, gen, flow, solve
 from ..mon_problem import mon_optimize
 
 PROPERTY = 'C03'
-CASES = {'quick': 560, 'thorough': 8000}
+CASES = {'quick': 1120, 'thorough': 8960}
 BUDGET_S = {'quick': 150, 'thorough': 1800}
 SUITE_UNDER_MONITORS = True      # thorough tier: the repository's own tests are an extra workload under the passive monitors
 RULE = ('case = one problem pushed through the real OptimProblem.optimize (or SplitOptimProblem.optimize) with a solver choice from '
@@ -18,8 +18,8 @@ ASSUMPTIONS = ['a variable is boolean iff its mapping rows flag it (flags are ge
                'ortools is not installed: that interface is not exercised', 'results flagged inaccurate make no claim (counted)',
                'first-order solvers OSQP/SCS are excluded (no sharp solver tolerance)',
                'tolerances: feasibility 1e-6 scaled, value 1e-5 (MIP 2e-4) relative']
-MIN_NONVACUOUS = {'quick': {'opt.rows_U': 100, 'opt.rows_L': 80, 'opt.rows_S': 60, 'opt.rows_N': 100, 'opt.booleans': 60,
-                            'opt.no_better_point': 200, 'opt.failure_means_infeasible': 25, 'opt.value_is_minus_cx': 200, 'opt.status_mapping': 400},
+MIN_NONVACUOUS = {'quick': {'opt.rows_U': 170, 'opt.rows_L': 136, 'opt.rows_S': 102, 'opt.rows_N': 170, 'opt.booleans': 102,
+                            'opt.no_better_point': 340, 'opt.failure_means_infeasible': 42, 'opt.value_is_minus_cx': 340, 'opt.status_mapping': 680},
                   'thorough': {'opt.rows_U': 2000, 'opt.rows_L': 1500, 'opt.rows_S': 1000, 'opt.rows_N': 2000, 'opt.booleans': 1000,
                                'opt.no_better_point': 4000, 'opt.failure_means_infeasible': 500}}
 LP_SOLVERS = [None, None, 'CLARABEL', 'SCIPY', 'SCIP']
